@@ -126,7 +126,7 @@ ChanStartSend(s, id, hh, throttle, onErr) ==
     LET s1 == ChanUntrack(s, id, FALSE) IN
     IF FaultHits(s1, "send") THEN
       LET s2 == SinkLog(ClearFault(s1), "send", "err") IN
-      [Ob(s2, SFault(s2.o, "send")) EXCEPT !.ret = "err"]
+      [Ob(s2, SFaultSend(s2.o, id)) EXCEPT !.ret = "err"]
     ELSE
       LET s2 == [s1 EXCEPT !.buffered = @ + 1, !.credits = IF SinkMode = "independent" THEN @ - 1 ELSE @]
           s3 == SinkLog(s2, "send", "ok")
